@@ -20,3 +20,160 @@ def build():
         raise TieBroken("_load_handler: signature is no longer (module_name)")
     return ["(* cli/__init__.py _load_handler: functools.lru_cache(maxsize=...) *)\n"
             f"Definition LRU_MAXSIZE : nat := {size}%nat.\n"]
+
+
+# ---------------------------------------------------------------------------------------------------------------
+# Static inventory of the places where a process can keep something between two analyses.  Model/Cache.v lists what
+# it expects (its four state components, nothing else); Proofs/CacheP.v state_tie compares.  A new functools cache,
+# `global` statement, class-level container, mutable default argument, in-function write to a module-level table or
+# write to another module's state makes the lists differ: the tie is broken until the model accounts for it.
+MUTABLE_CALLS = {"list", "dict", "set", "bytearray", "defaultdict", "OrderedDict", "deque", "Counter", "ChainMap"}
+MUTATORS = {"append", "add", "update", "setdefault", "pop", "popitem", "clear", "extend", "insert", "remove", "discard",
+            "sort", "reverse", "appendleft", "popleft", "extendleft", "__setitem__", "__delitem__"}
+CACHE_DECORATORS = {"lru_cache", "cache", "cached_property", "singledispatch", "singledispatchmethod"}
+PROCESS_SETTERS = {("sys", "setrecursionlimit"), ("os", "chdir"), ("os", "umask"), ("os", "putenv"), ("os", "unsetenv"),
+                   ("locale", "setlocale"), ("signal", "signal"), ("random", "seed"), ("warnings", "simplefilter"),
+                   ("warnings", "filterwarnings"), ("logging", "basicConfig"), ("logging", "disable"), ("atexit", "register"),
+                   ("sys", "settrace"), ("sys", "setprofile"), ("gc", "disable"), ("importlib", "reload")}
+
+
+def _is_mutable_expr(v):
+    if isinstance(v, (ast.List, ast.Dict, ast.Set, ast.ListComp, ast.DictComp, ast.SetComp)):
+        return True
+    if isinstance(v, ast.Call):
+        name = getattr(v.func, "id", getattr(v.func, "attr", None))
+        return name in MUTABLE_CALLS
+    return False
+
+
+def _decorator_name(d):
+    if isinstance(d, ast.Call):
+        d = d.func
+    return getattr(d, "id", getattr(d, "attr", None))
+
+
+def _inventory():
+    inv = {"caches": [], "globals": [], "class_mutables": [], "mutable_defaults": [], "table_writes": [], "foreign_writes": [],
+           "argument_writes": []}
+    files = []
+    for dp, dn, fn in os.walk(SRC):
+        dn[:] = sorted(d for d in dn if d != "__pycache__")
+        for f in sorted(fn):
+            if f.endswith(".py"):
+                files.append(os.path.relpath(os.path.join(dp, f), SRC))
+    for rel in files:
+        mod = load(rel)
+        module_names, imported = set(), set()
+        for n in mod.body:
+            if isinstance(n, ast.Assign):
+                for t in n.targets:
+                    for x in ast.walk(t):
+                        if isinstance(x, ast.Name):
+                            module_names.add(x.id)
+            elif isinstance(n, (ast.AnnAssign, ast.AugAssign)) and isinstance(n.target, ast.Name):
+                module_names.add(n.target.id)
+            elif isinstance(n, ast.Import):
+                for a in n.names:
+                    imported.add((a.asname or a.name).split(".")[0])
+            elif isinstance(n, ast.ImportFrom):
+                for a in n.names:
+                    imported.add(a.asname or a.name)
+
+        def visit(node, qual, fn_locals, fn_globals):
+            for ch in ast.iter_child_nodes(node):
+                if isinstance(ch, ast.ClassDef):
+                    q = f"{qual}{ch.name}."
+                    for st in ch.body:
+                        tgt = val = None
+                        if isinstance(st, ast.Assign) and len(st.targets) == 1 and isinstance(st.targets[0], ast.Name):
+                            tgt, val = st.targets[0].id, st.value
+                        elif isinstance(st, ast.AnnAssign) and isinstance(st.target, ast.Name) and st.value is not None:
+                            tgt, val = st.target.id, st.value
+                        if tgt and _is_mutable_expr(val):
+                            inv["class_mutables"].append(f"{rel}:{q}{tgt}")
+                    visit(ch, q, None, set())
+                elif isinstance(ch, (ast.FunctionDef, ast.AsyncFunctionDef)):
+                    q = f"{qual}{ch.name}"
+                    for d in ch.decorator_list:
+                        if _decorator_name(d) in CACHE_DECORATORS:
+                            inv["caches"].append(f"{rel}:{q}")
+                    a = ch.args
+                    pos = a.posonlyargs + a.args
+                    for arg, dv in list(zip(pos[len(pos) - len(a.defaults):], a.defaults)) + \
+                            [(k, v) for k, v in zip(a.kwonlyargs, a.kw_defaults) if v is not None]:
+                        if _is_mutable_expr(dv):
+                            inv["mutable_defaults"].append(f"{rel}:{q}:{arg.arg}")
+                    globs = set()
+                    locs = {x.arg for x in pos + a.kwonlyargs} | ({a.vararg.arg} if a.vararg else set()) | ({a.kwarg.arg} if a.kwarg else set())
+                    for x in ast.walk(ch):
+                        if isinstance(x, ast.Global):
+                            globs.update(x.names)
+                            for nm in x.names:
+                                inv["globals"].append(f"{rel}:{q}:{nm}")
+                    params = set(locs) - {"self", "cls"}
+                    stored = {x.id for x in ast.walk(ch) if isinstance(x, ast.Name) and isinstance(x.ctx, ast.Store)}
+                    for x in ast.walk(ch):
+                        if isinstance(x, ast.Name) and isinstance(x.ctx, ast.Store) and x.id not in globs:
+                            locs.add(x.id)
+                        elif isinstance(x, (ast.Import, ast.ImportFrom)):
+                            for al in x.names:
+                                locs.add((al.asname or al.name).split(".")[0])
+                    for x in ast.walk(ch):
+                        base = None
+                        what = None
+                        if isinstance(x, ast.Call) and isinstance(x.func, ast.Attribute):
+                            r, chain = x.func.value, [x.func.attr]
+                            while isinstance(r, (ast.Attribute, ast.Subscript)):
+                                if isinstance(r, ast.Attribute):
+                                    chain.insert(0, r.attr)
+                                r = r.value
+                            if not isinstance(r, ast.Name):
+                                continue
+                            base, what = r.id, ".".join(chain)
+                            if len(chain) == 1 and (base, what) in PROCESS_SETTERS and base not in (locs - imported):
+                                inv["foreign_writes"].append(f"{rel}:{q}:{base}.{what}()")
+                                continue
+                            if chain[-1] not in MUTATORS:
+                                continue
+                            if base in imported and base not in module_names and len(chain) == 1:
+                                continue        # os.remove(path), shutil.move(...): a call into a module, not a write to its state
+                        elif isinstance(x, (ast.Subscript, ast.Attribute)) and isinstance(x.ctx, (ast.Store, ast.Del)):
+                            r = x.value
+                            while isinstance(r, (ast.Subscript, ast.Attribute)):
+                                r = r.value
+                            if isinstance(r, ast.Name):
+                                base = r.id
+                                what = "[...]=" if isinstance(x, ast.Subscript) else "." + x.attr + "="
+                        if base is not None and base in params and base not in stored and not rel.startswith("vendor"):
+                            # the caller's object is changed (outside the vendored parser, whose builders pass accumulators around)
+                            inv["argument_writes"].append(f"{rel}:{q}:{base}")
+                        if base is None or base in locs:
+                            continue
+                        if base in module_names:
+                            inv["table_writes"].append(f"{rel}:{q}:{base}{what if what.startswith(('.', '[')) else '.' + what + '()'}")
+                        elif base in imported and base != "self":
+                            inv["foreign_writes"].append(f"{rel}:{q}:{base}{what if what.startswith(('.', '[')) else '.' + what + '()'}")
+                    visit(ch, q + ".", locs, globs)
+                else:
+                    visit(ch, qual, fn_locals, fn_globals)
+
+        visit(mod, "", None, set())
+    return inv
+
+
+_build_lru = build
+
+
+def build():
+    out = _build_lru()
+    inv = _inventory()
+    for key, name, comment in (
+            ("caches", "STATE_FUNCTOOLS_CACHES", "functions decorated with a functools cache, anywhere in src/dippy"),
+            ("globals", "STATE_GLOBAL_STATEMENTS", "`global` statements: file:function:name"),
+            ("class_mutables", "STATE_CLASS_MUTABLES", "class-level attributes bound to a list / dict / set / ... display or constructor"),
+            ("mutable_defaults", "STATE_MUTABLE_DEFAULTS", "default-argument values that are mutable displays or constructors"),
+            ("table_writes", "STATE_TABLE_WRITES", "in-function mutations of a module-level name (method call, item / attribute store)"),
+            ("foreign_writes", "STATE_FOREIGN_WRITES", "in-function writes to another module's state (attribute / item stores on an imported name, process-level setters)"),
+            ("argument_writes", "STATE_ARGUMENT_WRITES", "functions (outside vendor/) that change an object they were handed as a parameter: file:function:parameter")):
+        out.append(coq_strs(name, inv[key], comment))
+    return out
